@@ -659,6 +659,13 @@ class _ILoc:
             if idx < -f.n or idx >= f.n:
                 raise PyRaise(IndexError, ("single positional indexer is out-of-bounds",))
             return f.record(idx % f.n)
+        if isinstance(idx, (list, SArrayLite)) :
+            ix = idx.vals if isinstance(idx, SArrayLite) else idx
+            if all(isinstance(i, int) and not isinstance(i, bool) for i in ix):
+                for i in ix:
+                    if i < -f.n or i >= f.n:
+                        raise PyRaise(IndexError, ("positional indexers are out-of-bounds",))
+                return f.take([i % f.n for i in ix])
         raise Undecided("iloc subscript")
 
     def _pyvc_iter(self, it):
